@@ -73,6 +73,13 @@ def run(ctx):
         if i % 40 == 7:
             long_line = rng.choice([65535, 65536, 65537, 200000])
         text, evs = G.gen_log(rng, rng.randint(1, 14), long_line=long_line)
+        if i % 40 == 17:
+            # a matching record that is itself longer than 64 KiB (a very deep path): reported whole, like any other
+            e = G.Ev([('apparmor', 'DENIED', None), ('operation', 'open', None), ('class', 'file', None), ('profile', rng.choice(G.PROFILES[:4]), None),
+                      ('name', '/deep' + '/abcdefgh' * rng.choice([7300, 10000, 23000]), None), ('pid', '77', 'bare'), ('comm', 'deep', None),
+                      ('requested_mask', 'r', None), ('denied_mask', 'r', None), ('fsuid', '1000', 'bare'), ('ouid', '0', 'bare')])
+            text = e.render(rng, 'audit') + '\n' + text
+            evs = [(e, 0)] + [(x, j + 1) for x, j in evs]
         flt = ''
         if i % 3 == 0:
             flt = rng.choice(['foo', 'fo', 'bar', 'firefox', 'zzz', 'foo//b', 'f.o', 'a'])
@@ -159,6 +166,20 @@ def run(ctx):
                 if ndiff <= 2:
                     ctx.violation('aa-log %s prints a different output on every run' % ' '.join(mode), {'log': text[:3000], 'filter': flt, 'mode': mode,
                                   'outputs': [r[1].decode('utf-8', 'replace')[:1500] for r in res]})
+            if mode == [] and evs is not None and res[0][0] == 0 and '.' not in flt:
+                # display mode: one non-empty line per reported record, also when a record cut inside a quoted value
+                # (an odd number of quotes) comes first
+                cut = 'type=AVC msg=audit(1.1:1): apparmor="DENIED" operation="open" profile="foo" name="/cut'
+                with open(p + '.cut', 'w', encoding='utf-8', errors='surrogateescape') as f:
+                    f.write(cut + '\n' + text)
+                q = subprocess.run([ctx.path('aa-log'), '-f', p + '.cut'] + ([flt] if flt else []), stdout=subprocess.PIPE, stderr=subprocess.STDOUT, timeout=60)
+                os.remove(p + '.cut')
+                shown = [l for l in lib.ANSI.sub('', q.stdout.decode('utf-8', 'replace')).split('\n') if l.strip() != '']
+                plain = [l for l in lib.ANSI.sub('', res[0][1].decode('utf-8', 'replace')).split('\n') if l.strip() != '']
+                want_n = len(spec(evs, flt))
+                if len(plain) != want_n or len(shown) != want_n:
+                    ctx.violation('aa-log shows %d records (%d when a cut record comes first) for %d distinct matching events' % (len(plain), len(shown), want_n),
+                                  {'log': text[:3000], 'filter': flt, 'shown': plain[:20], 'shown_after_cut_record': shown[:20]})
             if mode == ['-R'] and evs is not None and res[0][0] == 0:
                 raw = res[0][1].decode('utf-8', 'surrogateescape').split('\n')
                 raw = [l for l in raw if l != '']
